@@ -146,15 +146,15 @@ def check_imf(mb, a, n0):
     with np.errstate(all="ignore"):
         imf = PowerLawIMF(mb, a, N0=n0)
         tot = segment_quad(imf, mb)
-        if abs(tot - n0) > 1e-9 * n0:
+        if not abs(tot - n0) <= 1e-9 * n0:
             return {"clause": "integrates to N0", "observed": repr(tot), "expected": repr(n0)}
         for i in range(1, len(mb) - 1):
             b = mb[i]
             left = n0 * imf._A_comps[i - 1] * b ** a[i - 1]
             right = n0 * imf._A_comps[i] * b ** a[i]
-            if abs(left - right) > 1e-10 * abs(left):
+            if not abs(left - right) <= 1e-10 * abs(left):
                 return {"clause": "continuous at every break", "break": repr(b), "observed": [repr(left), repr(right)]}
-            if abs(float(imf(b)) - left) > 1e-10 * abs(left):
+            if not abs(float(imf(b)) - left) <= 1e-10 * abs(left):
                 return {"clause": "value at a break", "break": repr(b)}
         below, above = mb[0] * 0.5, mb[-1] * 2
         if float(imf(below)) != 0 or float(imf(above)) != 0:
@@ -167,15 +167,15 @@ def check_imf(mb, a, n0):
             except ValueError:
                 pass
         ime = PowerLawIMF(mb, a, N0=n0, ext="extrapolate")
-        if abs(float(ime(below)) - n0 * imf._A_comps[0] * below ** a[0]) > 1e-10 * abs(float(ime(below))):
+        if not abs(float(ime(below)) - n0 * imf._A_comps[0] * below ** a[0]) <= 1e-10 * abs(float(ime(below))):
             return {"clause": "extrapolate mode continues the nearest component (below)"}
-        if abs(float(ime(above)) - n0 * imf._A_comps[-1] * above ** a[-1]) > 1e-10 * abs(float(ime(above))):
+        if not abs(float(ime(above)) - n0 * imf._A_comps[-1] * above ** a[-1]) <= 1e-10 * abs(float(ime(above))):
             return {"clause": "extrapolate mode continues the nearest component (above)"}
         M0 = 1234.5
         im0 = PowerLawIMF.from_M0(mb, a, M0)
         # Mtot is scipy.quad piecewise between the break masses (since the fix; it was off by up to 1.1e-4 across the kinks before)
         exact_M = gl_pieces(im0.M, mb[0], mb[-1], mb)
-        if abs(im0.Mtot - M0) > 1e-9 * M0 or abs(exact_M - M0) > 1e-8 * M0:
+        if not (abs(im0.Mtot - M0) <= 1e-9 * M0 and abs(exact_M - M0) <= 1e-8 * M0):   # NaN fails
             return {"clause": "from_M0 yields that total mass", "observed": repr(im0.Mtot)}
     return None
 
@@ -207,18 +207,18 @@ def check_binned(mb, a, n0, edges, ext="zeros"):
                 continue
             rn = gl(imf, lo, hi)
             rm = gl(imf.M, lo, hi)
-            if abs(N[j] - rn) > 1e-9 * rn / min(1.0, rel * 1e3) or abs(M[j] - rm) > 1e-9 * rm / min(1.0, rel * 1e3):
+            if not (abs(N[j] - rn) <= 1e-9 * rn / min(1.0, rel * 1e3) and abs(M[j] - rm) <= 1e-9 * rm / min(1.0, rel * 1e3)):
                 return {"clause": "binned number/mass = integrals over the bin", "bin": j,
                         "observed": [repr(float(N[j])), repr(float(M[j]))], "expected": [repr(rn), repr(rm)]}
         full = edges[0] == mb[0] and edges[-1] == mb[-1]
         if full and not np.isnan(N).any():
             if aligned:
-                if abs(N.sum() - n0) > 1e-9 * n0:
+                if not abs(N.sum() - n0) <= 1e-9 * n0:
                     return {"clause": "break-aligned bins sum to N0", "observed": repr(float(N.sum())), "expected": repr(n0)}
-                if abs(M.sum() - gl_pieces(imf.M, mb[0], mb[-1], mb)) > 1e-9 * M.sum():
+                if not abs(M.sum() - gl_pieces(imf.M, mb[0], mb[-1], mb)) <= 1e-9 * M.sum():
                     return {"clause": "break-aligned bins sum to the total mass", "observed": repr(float(M.sum()))}
             else:
-                if abs(N.sum() - n0) > 1e-9 * n0:
+                if not abs(N.sum() - n0) <= 1e-9 * n0:
                     return {"clause": "documented: bins need not align with breaks and still sum to N", "straddle": True,
                             "observed": repr(float(N.sum())), "expected": repr(n0)}
     return None
